@@ -87,8 +87,97 @@ def shards(tier, seed):
             nparts = {5: 2, 6: 6, 7: 16, 8: 48}[n]
             for part in range(nparts):
                 out.append(dict(func=func, dtype=dtype, engine="numpy", n=n, part=part, nparts=nparts, deep=True, tier=tier))
+    # n-D labels leg: 2-D labels (all axes reduced), integer labels with a real label -1, fill_value without expected_groups
+    for func in ND_FUNCS:
+        for labkind in ("int-1", "float-nan"):
+            for shp in ((3,), (2, 2)) if tier == "quick" else ((3,), (2, 2), (2, 3)):
+                nparts = 1 if int(np.prod(shp)) <= 4 else 6
+                for part in range(nparts):
+                    out.append(dict(func=func, dtype="float64", engine="numpy", n=int(np.prod(shp)), nd=True, shape=list(shp),
+                                    labkind=labkind, part=part, nparts=nparts, tier=tier))
     out.sort(key=lambda s: (0 if s["engine"] == "numbagg" else 1, -s["n"]))
     return out
+
+
+ND_FUNCS = ["sum", "nanmax", "nanmin", "count", "nanmean"]
+
+
+def run_nd(res, shard):
+    """Labels of 1 or 2 dimensions, all of them reduced; integer labels {-1,0,1} (-1 is a label like any other) or floats
+    {0,1,NaN}; every chunk grid; labels numpy or dask; no expected_groups, with and without a fill_value (which then
+    applies to groups without any valid member); oracle: the same call on the in-memory array, and the NumPy model."""
+    import dask.array as da
+
+    func, shp, labkind = shard["func"], tuple(shard["shape"]), shard["labkind"]
+    size = int(np.prod(shp))
+    alphabet = (-1, 0, 1) if labkind == "int-1" else (0.0, 1.0, float("nan"))
+    V = space.value_matrix((1.0, -2.0, float("nan")), size, "float64")
+    B = V.shape[0]
+    Vn = V.reshape((B,) + shp)
+    grids = list(itertools.product(*[space.compositions(s) for s in shp]))
+    labs = [lt for lt in itertools.product(alphabet, repeat=size) if any(x == x for x in lt)]
+    labs = [lt for i, lt in enumerate(labs) if i % shard["nparts"] == shard["part"]]
+    for lt in labs:
+        labels = np.array(lt, dtype=np.int64 if labkind == "int-1" else float).reshape(shp)
+        order = sorted(set(x for x in lt if x == x))
+        for fill in (None, FILL):
+            kw = dict(func=func, engine="numpy")
+            if fill is not None:
+                kw["fill_value"] = fill
+            eager = e1.call_reduce(Vn, labels, **kw)
+            exp, scope, present = e1.expected_table(func, V, list(lt), order)
+            if fill is not None:
+                cnt, _, _ = e1.expected_table("count", V, list(lt), order)
+                scope = scope & (cnt > 0)
+            for grid in grids:
+                for labels_dask in (False, True):
+                    for method in (None, "map-reduce", "cohorts"):
+                        if labels_dask and method == "cohorts":
+                            continue
+                        arr = da.from_array(Vn, chunks=((B,),) + tuple(grid))
+                        by = da.from_array(labels, chunks=tuple(grid)) if labels_dask else labels
+                        out = e1.call_reduce(arr, by, method=method, **kw)
+                        res.evaluations += B
+                        res.states += B
+                        res.transitions += 1
+                        res.nontrivial += B if (len(order) > 1 or len(order) < size) else 0
+                        case = dict(leg="nd", func=func, label_shape=list(shp), labels=list(lt), grid=[list(g) for g in grid], labels_dask=labels_dask,
+                                    method=method, fill=fill)
+                        tags = dict(leg2="nd", func=func, method=str(method), labels_dask=labels_dask, labkind=labkind, fill=str(fill), lab_ndim=len(shp))
+                        sz = size * 10 + sum(len(g) for g in grid)
+                        if out.kind == "refused":
+                            res.outcomes[f"refused:{out.exc}"] += 1
+                            continue
+                        if out.kind == "error":
+                            res.outcomes[f"error:{out.exc}"] += 1
+                            res.violate("chunked-error", case, out.brief(), "a computed result or a clean refusal",
+                                        tags=dict(tags, kind="error", exc=out.exc, where=out.where), size=sz)
+                            continue
+                        if eager.kind != "ok":
+                            res.outcomes[f"eager-{eager.kind}(not asserted)"] += 1
+                            continue
+                        res.compared += B
+                        if not rm.same_labels(out.groups[0], order) or not rm.same_labels(eager.groups[0], order):
+                            res.outcomes["wrong-labels"] += 1
+                            res.violate("chunked-labels", case, dict(groups=out.groups[0]), dict(groups=order), tags=dict(tags, kind="labels"), size=sz)
+                            continue
+                        bad = e1.compare(out.result, np.asarray(eager.result), np.ones_like(scope), rtol=1e-12)
+                        which = "eager"
+                        if bad is None:
+                            bad = e1.compare(out.result, exp, scope, rtol=1e-12)
+                            which = "numpy-model"
+                        if bad is None:
+                            res.outcomes["ok"] += 1
+                            continue
+                        res.outcomes["mismatch"] += 1
+                        if bad[0] == "shape":
+                            res.violate("chunked-shape", case, dict(shape=bad[1]), dict(shape=bad[2]), tags=dict(tags, kind="shape"), size=sz)
+                            continue
+                        ref = np.asarray(eager.result) if which == "eager" else exp
+                        res.violate("chunked-value", dict(case, values=V[bad[-2]], group=order[bad[-1]], oracle=which),
+                                    np.asarray(out.result)[bad], ref[bad], tags=dict(tags, kind="value", oracle=which), size=sz)
+    res.sample(dict(leg="nd", func=func, label_shape=list(shp), label_alphabet=[str(a) for a in alphabet], grids=len(grids), rows=B))
+    return res
 
 
 def configs(engine, labels_dask, bblocks=1, tier="thorough"):
@@ -280,6 +369,8 @@ def run_shard(shard):
     res = Result()
     if shard.get("deep"):
         return run_deep(res, shard)
+    if shard.get("nd"):
+        return run_nd(res, shard)
     func, dtype, engine, n = shard["func"], shard["dtype"], shard["engine"], shard["n"]
     V = space.value_matrix(space.alphabet_for(dtype), n, dtype)
     pairs = [(lt, ch) for lt in itertools.product(LABELS, repeat=n) for ch in space.compositions(n)]
@@ -312,6 +403,9 @@ def replay(payload):
 
     res = Result()
     c = payload["case"]
+    if c.get("leg") == "nd":
+        ints = all(isinstance(x, int) for x in c["labels"])
+        return run_nd(res, dict(func=c["func"], shape=c["label_shape"], labkind="int-1" if ints else "float-nan", part=0, nparts=1))
     lab = tuple(unjson_float(c["labels"]))
     n = len(lab)
     V = space.value_matrix(space.alphabet_for(c["dtype"]), n, c["dtype"])
